@@ -199,6 +199,7 @@ type c37Live struct {
 	node      int
 	want      map[string]int // distinct requested cid -> block index
 	got       map[string]int
+	gotAt     map[string]time.Duration
 	closed    bool
 	cancelled bool
 	failed    error
@@ -293,6 +294,7 @@ func c37Run(t *testing.T, ci any, trace bool) *verifsim.Result {
 				return false
 			}
 			lv.got[k]++
+			lv.gotAt[k] = s.Now()
 			if lv.got[k] > 1 {
 				s.Failf("duplicate-delivery", "%s received block %s (pool #%d) %d times on one request", desc, b.Cid(), lv.want[k], lv.got[k])
 				return false
@@ -303,7 +305,7 @@ func c37Run(t *testing.T, ci any, trace bool) *verifsim.Result {
 		for ri := range c.Reqs {
 			ri := ri
 			r := &c.Reqs[ri]
-			lv := &c37Live{idx: ri, node: r.Node, want: map[string]int{}, got: map[string]int{}}
+			lv := &c37Live{idx: ri, node: r.Node, want: map[string]int{}, got: map[string]int{}, gotAt: map[string]time.Duration{}}
 			lives[ri] = lv
 			var keys, keys2 []cid.Cid
 			for _, k := range r.Keys {
@@ -393,7 +395,7 @@ func c37Run(t *testing.T, ci any, trace bool) *verifsim.Result {
 					if len(keys2) > 0 {
 						// a second fetch on the same session is its own request as far as
 						// "at most once per request" goes
-						lv2 := &c37Live{idx: ri, node: r.Node, want: map[string]int{}, got: map[string]int{}, issued: true, issuedAt: s.Now()}
+						lv2 := &c37Live{idx: ri, node: r.Node, want: map[string]int{}, got: map[string]int{}, gotAt: map[string]time.Duration{}, issued: true, issuedAt: s.Now()}
 						for _, k := range r.Keys2 {
 							lv2.want[pool[k].Cid().KeyString()] = k
 						}
@@ -523,6 +525,16 @@ func c37Run(t *testing.T, ci any, trace bool) *verifsim.Result {
 					// suppressed as a duplicate, answered wants are not re-broadcast, and
 					// without routing information the later session never learns who has
 					// the block
+					// second variant: the earlier fetch was not cancelled but received the
+					// block after this one had been issued; its want was still marked as
+					// sent when this session asked, the peers had answered it already
+					for _, e := range lives {
+						if _, wants := e.want[k]; e != lv && wants && e.node == lv.node && e.issued && e.got[k] > 0 && e.issuedAt <= lv.issuedAt && e.gotAt[k] >= lv.issuedAt {
+							s.Failf("not-delivered-after-cancelled-earlier-fetch", "%s never received block #%d although nodes %v hold it and every link was healed %v of simulated time ago; req#%d of the same node had asked for the block earlier (t=%v) and received it at t=%v, after this request had been issued (t=%v): the want was still marked as sent to the peers, which had answered it", desc, b, hs, settle, e.idx, e.issuedAt, e.gotAt[k], lv.issuedAt)
+							shutdown()
+							return
+						}
+					}
 					if !c.RoutingKnows {
 						for _, e := range lives {
 							if _, wants := e.want[k]; e != lv && wants && e.node == lv.node && e.issued && e.cancelled && e.got[k] == 0 && e.issuedAt <= lv.issuedAt {
@@ -544,6 +556,11 @@ func c37Run(t *testing.T, ci any, trace bool) *verifsim.Result {
 			}
 		}
 		// want-list clean-up: only CIDs of live, incomplete requests may remain
+		type c37Suspect struct {
+			node, block, owner int
+			key                string
+		}
+		var suspects []c37Suspect
 		checkWantlists := func(when string) bool {
 			for ni, nd := range nodes {
 				allowed := map[string]bool{}
@@ -559,19 +576,23 @@ func c37Run(t *testing.T, ci any, trace bool) *verifsim.Result {
 				}
 				for _, w := range nd.bs.GetWantlist() {
 					if !allowed[w.KeyString()] {
-						// known finding: the block was handed to NotifyNewBlocks on this node while
-						// a fetch for it was waiting here (the session registers its interest
-						// asynchronously, so the local block can slip past a session that has
-						// not got that far, while the caller still gets it through the pubsub)
+						// Known finding: a fetch subscribes to the block pubsub before its session
+						// has registered the want. A block reported to the sessions in that window
+						// reaches the caller but not the session, which goes on wanting it until its
+						// context ends. Such a left-over is owned by a session that is still alive:
+						// it must be gone once every request context has been cancelled (judged in
+						// the last phase). A left-over with no such owner is reported at once.
 						b := index[w.KeyString()]
-						for _, la := range localAdds {
+						if when == "after the settle phase" {
+							owner := -1
 							for _, lv := range lives {
-								if la.node == ni && la.block == b && la.racing[lv] && !lv.cancelled {
-									if lv.got[w.KeyString()] > 0 && when == "after the settle phase" {
-										s.Failf("want-left-behind-after-racing-local-add", "%s: node %d's want-list still contains block #%d; req#%d (issued at t=%v) received it, and the block had been added locally on that node (NotifyNewBlocks) at t=%v while that request was waiting for it", when, ni, b, lv.idx, lv.issuedAt, la.at)
-										return false
-									}
+								if lv.node == ni && lv.issued && !lv.cancelled && lv.got[w.KeyString()] > 0 {
+									owner = lv.idx
 								}
+							}
+							if owner >= 0 {
+								suspects = append(suspects, c37Suspect{node: ni, block: b, key: w.KeyString(), owner: owner})
+								continue
 							}
 						}
 						s.Failf("want-left-behind", "%s: node %d's want-list still contains block #%d, which no live request of that node is waiting for", when, ni, index[w.KeyString()])
@@ -591,8 +612,10 @@ func c37Run(t *testing.T, ci any, trace bool) *verifsim.Result {
 			}
 		}
 		s.Settle(30 * time.Second)
-		if !s.Failed() {
-			checkWantlists("after every request was completed or cancelled")
+		if !s.Failed() && checkWantlists("after every request was completed or cancelled") && len(suspects) > 0 {
+			// every suspect has gone with its session: the known finding, not more
+			su := suspects[0]
+			s.Failf("want-left-behind-until-session-end", "node %d's want-list contained block #%d after req#%d had received it, for as long as the context of that request was alive; it was gone once the context was cancelled (the request got the block from the pubsub before its session had registered the want)", su.node, su.block, su.owner)
 		}
 		shutdown()
 	})
